@@ -209,4 +209,37 @@ theorem supplied_bracket_confines (x0 : ExtRat) (im : Int) (lo hi fl fh : Rat) (
       · exact Or.inr (inside_b0 _ e)
 
 end exact
+/-! ## non-vacuity: the hypotheses of the theorems are satisfiable -/
+section nonvacuity
+open ExtRat
+
+/-- a toy number record on `Int` (`-999` plays NaN) on which runs are evaluated by the kernel -/
+def intNum : Num Int where
+  zero := 0
+  two := 2
+  nan := -999
+  add := (· + ·)
+  sub := (· - ·)
+  mul := (· * ·)
+  div := (· / ·)
+  neg := fun x => -x
+  lt := fun a b => decide (a < b)
+  isFinite := fun x => x != -999
+  isNaN := fun x => x == -999
+  isZero := fun x => decide (x = 0)
+
+/-- `converged_sound`: a run that does converge (Newton on `x - 3` from 0) -/
+example : (run intNum (fun _ x => (x - 3, 1)) (fun fv _ _ _ => fv == 0) 0 5 (-999) (-999)).converged = true ∧
+    (run intNum (fun _ x => (x - 3, 1)) (fun fv _ _ _ => fv == 0) 0 5 (-999) (-999)).x = 3 := by decide
+
+/-- `bracket_only_shrinks_and_confines`: `Good` brackets exist -/
+example : Good (⟨fin (-1), fin (-1), fin 1, fin 1⟩ : Bracket ExtRat) :=
+  ⟨-1, -1, 1, 1, rfl, by decide, by decide⟩
+
+/-- `supplied_bracket_confines`: `f(x) = x` on `[-1, 1]` from the guess 5 satisfies every hypothesis -/
+example := supplied_bracket_confines (fun _ x => (x, fin 1)) (fun fv _ _ _ => fv == fin 0) (fin 5) 10
+  (-1) 1 (-1) 1 (by decide) rfl rfl (by decide)
+
+end nonvacuity
+
 end TfelVerif.C09.Props
